@@ -450,8 +450,12 @@ class Lexer:
 
         line, pos = self.matched_lineno, self.matched_charpos
         text, end = self.parse_until_text(True, r"\|", r"}")
+        escapes_lineno_offset = 0
         if end == "|":
             escapes, end = self.parse_until_text(True, r"}")
+            # the line the first filter is on, relative to the "${"
+            leading = escapes[: len(escapes) - len(escapes.lstrip())]
+            escapes_lineno_offset = (text + leading).count("\n")
         else:
             escapes = ""
         text = text.replace("\r\n", "\n")
@@ -459,6 +463,7 @@ class Lexer:
             parsetree.Expression,
             text,
             escapes.strip(),
+            escapes_lineno_offset=escapes_lineno_offset,
             lineno=line,
             pos=pos,
         )
